@@ -33,6 +33,9 @@ CHECKS = {
  "C12": dict(design="3/C12", technique="property-based testing (Hypothesis): algebraic fluctuation-dissipation identity on the real thermostat object against CODATA constants; seeded statistical tests (chi-square per element after one step from an exact Maxwell-Boltzmann sample, block-averaged long-run temperature) with >= 5-6 sigma bands; limiting-case differentials (tau -> infinity vs NVE, T = 0 dissipative)",
              text="2000 generated (dt, tau, T, element masses, padding) tuples with dt/tau over 1e-4..10: c1 = exp(-dt/2tau), c1^2 + c2^2 m/(k_B T) = 1 per real atom to 2e-6 of (1-c1^2) (measured 4e-8, the repository's unit constant vs CODATA), no noise on padding or at T = 0. 48 seeded runs of 720 free / softly bound atoms of all element masses: Maxwell-Boltzmann at T invariant under one step (5 sigma per element) and long-run kinetic temperature equal to T (6 standard errors + 0.4 %). tau -> infinity: deviation from the NVE trajectory vanishes like tau^-1/2; T = 0: no net energy gain. Exploration.",
              note="Statistical statements are deterministic functions of VERIF_SEED; a bias below ~1 % of T is invisible. Force field is an analytic stub. Damped XL-BOMD / KSA / surface hopping inherit the same thermostat methods and are not run separately here."),
+ "C08": dict(design="3/C08", technique="metamorphic property-based testing (Hypothesis) over FAMILIES of runs of the real NVE integrator: dt / dt/2 / dt/4 refinement, forward / velocity-reversed pairs, long runs; invariants and bookkeeping read back from the HDF5 files; independent NumPy re-evaluation of the potential; CODATA reference for the acceleration constant",
+             text="Stub-driven families (96 per quick run, each 5 runs of 20-6000 steps): linear and angular momentum constant (measured 5e-15), return to the start after velocity reversal (3e-15 A), position-error and energy-fluctuation ratios per halving in [3.0, 5.6] where the coarsest step resolves the fastest vibration (measured 4.00-4.01), no drift of the mean energy over 15 periods of the slowest mode, stored Ek / T / Ep equal to those of the stored velocities / coordinates of the same row, acceleration constant equal to the CODATA conversion to 1e-6 (measured 4e-8). SCF-driven sample (water, formaldehyde, ammonia; AM1/PM3): momentum, stored Ep and forces equal to an independent single point at the stored coordinates. Exploration.",
+             note="Force field of the large families is an analytic stub; the coupling to the real Electronic_Structure is exercised by 32 short SCF-driven runs. Order and drift are asymptotic statements judged only in the resolved regime (labels order_resolved / drift_checked show how often). Excited-state surfaces are not run here."),
 }
 NOT_APPLICABLE = []
 def main():
